@@ -69,6 +69,7 @@ fn read_only_set(fx: &Fx, thread: &str, router: Option<&axum::Router>, full: boo
     let store = fx.store();
     let mut len = fx.log_bytes().len();
     let mut offender = None;
+    let mut prefix_broken: Option<(String, usize, usize)> = None;
     let mut probe = |what: String, fx: &Fx| {
         let now = fx.log_bytes().len();
         if now != len && offender.is_none() {
@@ -120,12 +121,41 @@ fn read_only_set(fx: &Fx, thread: &str, router: Option<&axum::Router>, full: boo
         probe(format!("provider_cursor_status_v1({t:?})"), fx);
         let _ = store.provider_cursor_rotate_v1(t, ProviderCursorRotateV1Request { provider: Some("no-such-provider".into()), endpoint: None, model: None, reason: None, actor_id: "u".into(), origin: "o".into() });
         probe(format!("provider_cursor_rotate_v1({t:?},provider=no-such-provider)"), fx);
+        // filters on the fields a cursor may lack (a run on the provider's default model records
+        // no model): a filter on a value no cursor of the thread carries matches nothing
+        let _ = store.provider_cursor_rotate_v1(t, ProviderCursorRotateV1Request { provider: None, endpoint: None, model: Some("no-such-model".into()), reason: None, actor_id: "u".into(), origin: "o".into() });
+        probe(format!("provider_cursor_rotate_v1({t:?},model=no-such-model)"), fx);
+        let _ = store.provider_cursor_rotate_v1(t, ProviderCursorRotateV1Request { provider: None, endpoint: Some("http://no-such-endpoint".into()), model: None, reason: None, actor_id: "u".into(), origin: "o".into() });
+        probe(format!("provider_cursor_rotate_v1({t:?},endpoint=no-such-endpoint)"), fx);
+        let _ = store.provider_cursor_rotate_v1(t, ProviderCursorRotateV1Request { provider: Some("openresponses".into()), endpoint: Some("http://no-such-endpoint".into()), model: Some("no-such-model".into()), reason: None, actor_id: "u".into(), origin: "o".into() });
+        probe(format!("provider_cursor_rotate_v1({t:?},provider=openresponses,endpoint+model=no-such)"), fx);
         for l in [None, Some(0u32), Some(1), Some(50), Some(51)] {
             let _ = store.context_selection_status_v1(t, ContextSelectionStatusV1Request { limit: l });
             probe(format!("context_selection_status_v1({t:?},limit={l:?})"), fx);
         }
         let _ = store.get(t);
         probe(format!("get({t:?})"), fx);
+        // WRITER calls addressed to a thread that does not exist are refused: they add nothing, and
+        // the log they leave is the log they found (a hostile id must not reach a file)
+        if t != thread {
+            let before = fx.log_bytes();
+            let _ = store.append_message(t, "u".into(), "o".into(), "to nowhere".into());
+            probe(format!("append_message({t:?}) [unknown thread: refused]"), fx);
+            let _ = store.provider_cursor_rotate_v1(t, ProviderCursorRotateV1Request { provider: None, endpoint: None, model: None, reason: None, actor_id: "u".into(), origin: "o".into() });
+            probe(format!("provider_cursor_rotate_v1({t:?}) [unknown thread: refused]"), fx);
+            let _ = store.compaction_checkpoint_cumulative_v1(t, ripd::CompactionCheckpointCumulativeV1Request { summary_markdown: Some("s".into()), summary_artifact_id: None, to_message_id: None, to_seq: Some(1), stride_messages: None, actor_id: "u".into(), origin: "o".into() });
+            probe(format!("compaction_checkpoint_cumulative_v1({t:?}) [unknown thread: refused]"), fx);
+            let _ = store.compaction_auto_v1(t, CompactionAutoV1Request { stride_messages: Some(1), max_new_checkpoints: Some(1), dry_run: Some(false), actor_id: "u".into(), origin: "o".into() });
+            probe(format!("compaction_auto_v1({t:?},real) [unknown thread: refused]"), fx);
+            let _ = store.branch(t, None, None, None, "u".into(), "o".into());
+            probe(format!("branch({t:?}) [unknown thread: refused]"), fx);
+            let _ = store.handoff(t, None, (Some("s".into()), None), None, None, ("u".into(), "o".into()));
+            probe(format!("handoff({t:?}) [unknown thread: refused]"), fx);
+            let after = fx.log_bytes();
+            if !after.starts_with(&before) && prefix_broken.is_none() {
+                prefix_broken = Some((format!("writer calls on unknown thread {t:?} [the log is no longer an extension of what it was]"), before.len(), after.len()));
+            }
+        }
     }
     let _ = store.list();
     probe("list()".into(), fx);
@@ -137,8 +167,14 @@ fn read_only_set(fx: &Fx, thread: &str, router: Option<&axum::Router>, full: boo
             drop(resp);
             probe(format!("GET {uri}"), fx);
         }
+        for uri in ["/threads/no-such-thread/messages", "/threads/..%2Fevents/messages", "/threads/..%2Fevents/provider-cursor-rotate", "/threads/..%2Fevents/branch", "/threads/%2Ftmp%2Fx/messages"] {
+            let req = Request::builder().method("POST").uri(uri).header("content-type", "application/json").body(Body::from(json!({"content": "x", "actor_id": "u", "origin": "o"}).to_string())).unwrap();
+            let resp = rt.block_on(router.clone().oneshot(req));
+            drop(resp);
+            probe(format!("POST {uri} [unknown thread: refused]"), fx);
+        }
     }
-    offender
+    offender.or(prefix_broken)
 }
 
 fn case_json(hist: &[H], upto: usize, extra: Value) -> Value {
@@ -280,16 +316,38 @@ fn check_history(report: &Report, rt: &Arc<tokio::runtime::Runtime>, hist: &[H],
     }
 }
 
+/// Engine S at system-call granularity: a frame larger than the log writer's buffer appended by the
+/// engine racing one appended through a SECOND writer handle on the same file (an outgoing
+/// authority finishing an append): every interleaving of their file-system calls; afterwards the
+/// log must consist of whole frames (validated replay) - O_APPEND and one write(2) per frame are
+/// the property's named mechanisms and only show with two handles and large frames.
+fn race_part(report: &Report) {
+    use crate::race::{job, Pre, Reader, Writer};
+    let tier = report.tier();
+    let t = tier.as_str();
+    let cap = report.opts.wall_cap_s;
+    let jobs = vec![
+        job(t, "c02", cap, Pre::OpenTurn, Reader::SecondHandleBigFrame, Writer::BigMessage, tier.pick(2, 3)),
+        job(t, "c02", cap, Pre::OpenTurn, Reader::SecondHandleBigFrame, Writer::Message, tier.pick(2, 3)),
+    ];
+    report.set_extra("race_configs", json!(jobs.len()));
+    crate::common::run_workers(report, jobs, 16, &crate::race::shim_env());
+}
+
 pub fn run(opts: Opts) -> i32 {
+    if let Some(spec) = opts.extra.iter().find_map(|a| a.strip_prefix("race=")) {
+        let spec = spec.to_string();
+        return crate::race::worker(opts, "C02", "exploration", &spec);
+    }
     let report = Report::new("C02", "exploration", opts.clone());
     report.set_rule(
-        "every history of <=3 (quick) / <=4 (thorough) ops from {message, answered run, open run, run_ended, side effects, cursor set, \
+        "every history of <=3 (quick) / <=4 (thorough) ops from {message, answered run, open run, run_ended, side effects, cursor set, cursor set without endpoint and model, \
          cursor rotate, selection pair, manual checkpoint at a boundary / at a non-boundary (refused), auto compaction, schedule, a summarizer job left in flight, branch, \
          handoff, drop caches, restart}; after every step: byte-prefix + whole-line JSON suffix + only cache/snapshot/.rip files changed; \
          in every reached state the read-only set (replay, cut points over stride x limit domains, status, cursor status, no-match rotate, \
          selection status, list/get, dry-run (x block_on_inflight x execute) and nothing-plannable auto/schedule, stride 0, unknown / hostile thread ids incl. '../events', \
          and GET routes incl. the three SSE handlers and /config/doctor) must add zero bytes, also with caches dropped and after restart; short histories also run a background task through POST /tasks (append-only while it runs; its GET routes and a late cancel add nothing); after the history one frame is appended through a \
-         second writer handle opened before it, then one by the engine (both must land at the end); \
+         second writer handle opened before it, then one by the engine (both must land at the end); system-call part: a 20 KiB frame through a second writer handle racing a 20 KiB / a small append by the engine, every file-system call a scheduling point, <=2 (quick) / <=3 (thorough) preemptions: the log must consist of whole frames; \
          distinct = history",
     );
     report.assume("frames appended by a *failing* operation are information only (the property bounds what is written, not whether a failing op may log)");
@@ -301,6 +359,7 @@ pub fn run(opts: Opts) -> i32 {
         H::RunEndOldest,
         H::Side,
         H::Cursor(0),
+        H::Cursor(9),
         H::Rotate,
         H::SelPair,
         H::Ckpt(0),
@@ -315,6 +374,11 @@ pub fn run(opts: Opts) -> i32 {
     ];
     if let Some(path) = &opts.replay {
         let case = crate::common::load_replay_case(path);
+        if case["harness"] == "race.reader_vs_appender" {
+            report.replay_by_re_enumeration(path);
+            race_part(&report);
+            return report.finish();
+        }
         let hist: Vec<H> = case["history"].as_array().map(|a| a.iter().filter_map(|v| alphabet.iter().find(|h| name(h) == v.as_str().unwrap_or("")).cloned()).collect()).unwrap_or_default();
         println!("replay: history {:?}", hist.iter().map(name).collect::<Vec<_>>());
         let rt = new_rt();
@@ -334,5 +398,6 @@ pub fn run(opts: Opts) -> i32 {
         check_history(&report, rt, h, tier == Tier::Thorough || h.len() <= 1);
         report.eval(Some(&h));
     });
+    race_part(&report);
     report.finish()
 }
